@@ -277,6 +277,21 @@ theorem C16_empty_route_over_the_wire (t : Table) (hs : t.Slashed) (max : Nat) (
   rw [hr, he]
   exact C16_odd_routes_not_found t hs [] (by simp)
 
+theorem callWith_true (s : SvcTree) : callWith true true s = [] := by
+  induction s with
+  | leaf _ => rfl
+  | layer tag inner ih => simp [callWith, ih]
+  | route inner ih => simp [callWith, ih]
+
+/-- **No layer is ever called without having been polled ready**, however many route layers and `Route`
+boxes are stacked (by `route_layer` after `route_layer`, or by `merge`): readiness-sensitive middleware
+(concurrency limits, buffers, rate limits) installed as route layers is driven by the tower contract. -/
+theorem C16_no_call_without_poll_ready (s : SvcTree) : oneshotTree Gen.routeCallPollsInner s = [] :=
+  callWith_true s
+
+/-- what the pinned shape of `Route::call` prevents: calling the boxed service directly -/
+example : oneshotTree false (.route (.layer 7 (.route (.layer 8 (.leaf 1))))) = [7, 8] := by decide
+
 /-- **The router the model describes is the one in the source** (shapes recognised on this run): `route`
 rejects paths without a leading slash and Routers as services, inserts the pattern into the matcher under a
 fresh id and stores the service under that id; `merge` re-registers every route of the other router by
